@@ -19,6 +19,7 @@ from stabilize.persistence.store import WorkflowCriteria
 from stabilize.queue.messages import (
     CancelWorkflow,
     StartStage,
+    StartWaitingWorkflows,
     StartWorkflow,
 )
 from stabilize.resilience.config import HandlerConfig
@@ -116,6 +117,18 @@ class StartWorkflowHandler(StabilizeHandler[StartWorkflow]):
                             handler_type="StartWorkflow",
                             execution_id=message.execution_id,
                         )
+                # Close the lost-wakeup window: the running execution we counted
+                # may have completed between that check and the BUFFERED commit,
+                # and its StartWaitingWorkflows then ran without seeing this
+                # execution - nothing would ever promote it. Re-check now that
+                # BUFFERED is durable and trigger the promotion ourselves.
+                if not self._should_queue(execution) and execution.pipeline_config_id:
+                    self.queue.push(
+                        StartWaitingWorkflows(
+                            pipeline_config_id=execution.pipeline_config_id,
+                            purge_queue=False,
+                        )
+                    )
                 return
 
             self._start(execution, message)
